@@ -8,6 +8,7 @@ import KyupyVerif.Drv.CircObj
 import KyupyVerif.Drv.Netlist
 import KyupyVerif.Drv.Transform
 import KyupyVerif.Drv.WaveStrip
+import KyupyVerif.Drv.Cycle
 /-! Stateless driver extensions: each module `KyupyVerif/Drv/<Name>.lean` defines
 `handle : String → List String → Option String` (command word, remaining tokens → answer, or `none`
 when the command is not its own) and is listed in `extHandlers` below. -/
@@ -23,7 +24,8 @@ def extHandlers : List (String → List String → Option String) := [
   KV.Drv.CircObj.handle,
   KV.Drv.Netlist.handle,
   KV.Drv.Transform.handle,
-  KV.Drv.WaveStrip.handle
+  KV.Drv.WaveStrip.handle,
+  KV.Drv.Cycle.handle
 ]
 
 def tryExt (cmd : String) (args : List String) : Option String :=
